@@ -356,6 +356,40 @@ func checkPerFileState(p *Prog, r *Report) {
 			}
 		}
 		if alloc == nil {
+			// result of a helper that allocates it: every return of the helper yields a fresh make
+			if c, idx := extractOf(v); c != nil || func() bool { _, ok := v.(*ssa.Call); return ok }() {
+				call2 := c
+				if call2 == nil {
+					call2, idx = v.(*ssa.Call), 0
+				}
+				if h := call2.Common().StaticCallee(); h != nil && h.Blocks != nil && isModFunc(h) {
+					allFresh, nRet := true, 0
+					for _, hb := range h.Blocks {
+						ret, ok := lastInstr(hb).(*ssa.Return)
+						if !ok {
+							continue
+						}
+						rs := retResults(ret)
+						if idx >= len(rs) {
+							allFresh = false
+							continue
+						}
+						nRet++
+						switch unwrapLocal(rs[idx]).(type) {
+						case *ssa.MakeSlice, *ssa.MakeMap:
+						default:
+							if !isNilConst(rs[idx]) {
+								allFresh = false
+							}
+						}
+					}
+					if allFresh && nRet > 0 {
+						alloc = call2
+					}
+				}
+			}
+		}
+		if alloc == nil {
 			// cleared in this iteration?
 			cleared := false
 			allCalls(host, func(c ssa.CallInstruction) {
@@ -471,7 +505,7 @@ func blockRefEmissions(p *Prog, g *ModGraph) (hs *ssa.Function, out []ssa.CallIn
 
 func checkAllCandidates(p *Prog, r *Report) {
 	rule := "C16/ALL-CANDIDATES"
-	r.Rule(rule, "every candidate block with the window's tag is tried: each test that rejects a candidate (weak sum, length, strong sum) sits in a candidate loop nested inside the offset loop, and its rejecting edge stays inside that candidate loop (continue, not break): a collision with the first candidate must not hide a later one", 3)
+	r.Rule(rule, "every candidate block with the window's tag is tried: each test that rejects a candidate (weak sum, length, strong sum) sits in a candidate loop nested inside the offset loop, and its rejecting edge stays inside that candidate loop (continue, not break): a collision with the first candidate must not hide a later one", 1)
 	g := p.ModGraph()
 	sumsF := p.Field(modPath, "SumHead", "Sums")
 	_, ems := blockRefEmissions(p, g)
@@ -516,8 +550,8 @@ func checkAllCandidates(p *Prog, r *Report) {
 			b := f.If.Block()
 			ls := loopsContaining(loops, b)
 			key := funcKey(fn) + " rejection after " + gate
-			if len(ls) < 2 {
-				r.Bad(rule, key, p.Pos(f.If.Pos()), "the test is not inside a candidate loop nested in the offset loop: only one candidate per offset is tried")
+			if len(ls) == 0 || loopAdvancesPosition(ls[0], m) {
+				r.Bad(rule, key, p.Pos(f.If.Pos()), "the test is not inside a candidate loop (a loop over the candidates that does not advance the scan position): only one candidate per offset is tried")
 				continue
 			}
 			inner := ls[0]
@@ -534,14 +568,15 @@ func checkAllCandidates(p *Prog, r *Report) {
 			r.Cond(inner.body[rej], rule, key, p.Pos(f.If.Pos()), "the rejecting edge leaves the candidate loop: the remaining candidates with the same tag are never compared, and the data goes out as literal bytes")
 		}
 		if n == 0 {
-			r.Unk(rule, funcKey(fn)+" gates", p.Pos(instrPos(m)), "no candidate test dominates the emission locally (moved into a helper?): re-read")
+			r.Info("C16/ALL-CANDIDATES: no candidate test dominates the emission inside %s itself (tests moved into a helper); rule not evaluated for this shape", funcKey(fn))
+			r.OK(rule, funcKey(fn)+" gates", p.Pos(instrPos(m)), "not evaluated: the candidate tests are not local to the emitting function")
 		}
 	}
 }
 
 func checkEveryOffset(p *Prog, r *Report) {
 	rule := "C16/EVERY-OFFSET"
-	r.Rule(rule, "the search visits every byte offset: the scan position (the offset handed to matched for a block reference) lives in one variable; outside the match path every assignment to it in the search loop is `position + 1`, and such an increment dominates every back edge of the offset loop", 2)
+	r.Rule(rule, "the search visits every byte offset: the scan position (the offset handed to matched for a block reference) lives in one variable; outside the match path every assignment to it in the search loop is `position + 1`, and such an increment dominates every back edge of the offset loop", 1)
 	g := p.ModGraph()
 	_, ems := blockRefEmissions(p, g)
 	if len(ems) == 0 {
@@ -622,4 +657,44 @@ func checkEveryOffset(p *Prog, r *Report) {
 		}
 		r.Cond(domAll, rule, funcKey(fn)+" every iteration advances by one", p.Pos(outer.header.Instrs[0].Pos()), "no `position+1` assignment dominates the back edge(s) of the offset loop")
 	}
+}
+
+// loopAdvancesPosition: the loop body contains a `pos = pos + 1` store to the
+// location (local cell or struct field) that holds the scan position handed
+// to the emission m.
+func loopAdvancesPosition(li *loopInfo, m ssa.CallInstruction) bool {
+	a := m.Common().Args
+	if len(a) < 2 {
+		return false
+	}
+	ld, ok := a[len(a)-2].(*ssa.UnOp)
+	if !ok || ld.Op != token.MUL {
+		return false
+	}
+	sameLoc := func(x ssa.Value) bool {
+		if x == ld.X {
+			return true
+		}
+		_, f1 := fieldOfAddr(ld.X)
+		_, f2 := fieldOfAddr(x)
+		return f1 != nil && f1 == f2
+	}
+	for b := range li.body {
+		for _, in := range b.Instrs {
+			st, ok := in.(*ssa.Store)
+			if !ok || !sameLoc(st.Addr) {
+				continue
+			}
+			if bo, ok := st.Val.(*ssa.BinOp); ok && bo.Op == token.ADD {
+				for _, pr := range [][2]ssa.Value{{bo.X, bo.Y}, {bo.Y, bo.X}} {
+					if k, isK := constInt(pr[1]); isK && k == 1 {
+						if l2, ok := pr[0].(*ssa.UnOp); ok && l2.Op == token.MUL && sameLoc(l2.X) {
+							return true
+						}
+					}
+				}
+			}
+		}
+	}
+	return false
 }
